@@ -2,8 +2,9 @@
 
 For each history of a replacement corpus the design after replace_component[_with_obj] and the design constructed
 directly with the replacements in place run through the real passes from the same symbolic state with the same symbolic
-inputs for k cycles; all outputs and all same-named cells must be equal (z3).  Equality of the metadata sets themselves
-is one concrete fact per history with no inner quantifier and is not claimed (DESIGN 7 C15).
+inputs for k cycles; all outputs and all same-named cells must be equal (z3).  The metadata clauses have no input to
+quantify over and are decided per history by direct comparison: the canonical (name-based) form of every queryable
+structure equals that of the design built from scratch, and every recorded object is the object its name evaluates to.
 """
 import sys
 import z3
@@ -47,6 +48,20 @@ if tr[0] != tr[1]: reproduced(f"history {name} {RD.HISTORIES[name][0]}: (out, ta
 '''
 
 
+REPLAY_META = '''
+sys.path.insert(0, '/verif')
+import warnings; warnings.filterwarnings('ignore')
+from corpus import replace_designs as RD
+from vlib.meta import canon_meta, diff_meta, stale_objects
+name = %(name)r
+a = RD.replaced(name); b = RD.scratch(name); b.elaborate()
+d = diff_meta(canon_meta(a), canon_meta(b))
+if d: reproduced(f"history {name} {RD.HISTORIES[name][0]}: queryable metadata differs from the design built from scratch: " + "; ".join(d))
+st = stale_objects(a)
+if st: reproduced(f"history {name} {RD.HISTORIES[name][0]}: objects of a removed component are still recorded: " + "; ".join(st))
+'''
+
+
 def item(it):
   cover.start()
   import warnings; warnings.filterwarnings('ignore')
@@ -54,6 +69,22 @@ def item(it):
   from pymtl3 import DefaultPassGroup
   name, K = it['name'], it['K']
   res = Result(f"replace/{name}")
+  # -- structural clauses (no input to quantify over): metadata equal up to identity; nothing of a removed component recorded
+  from vlib.meta import canon_meta, diff_meta, stale_objects
+  res['obligations'] += 2
+  try:
+    a = RD.replaced(name); b = RD.scratch(name); b.elaborate()
+    d = diff_meta(canon_meta(a), canon_meta(b)); st = stale_objects(a)
+  except Exception as e:
+    d = [f"metadata query raised {type(e).__name__}: {str(e)[:120]}"]; st = []
+  if d:
+    res['violations'].append(dict(key=f"replace:{name}:metadata differs:{d[0].split(':')[0]}", what=f"{res['name']}: metadata differs from the design built from scratch: {'; '.join(d)[:400]}",
+                                  replay=REPLAY_META % dict(name=name)))
+  else: res['discharged'] += 1
+  if st:
+    res['violations'].append(dict(key=f"replace:{name}:stale object:{st[0].split(':')[0]}", what=f"{res['name']}: objects of a removed component remain recorded: {'; '.join(st)[:400]}",
+                                  replay=REPLAY_META % dict(name=name)))
+  else: res['discharged'] += 1
   res['obligations'] += 1
   try:
     A = SymSim(RD.replaced(name), group=lambda top: top.apply(DefaultPassGroup()))
@@ -119,10 +150,9 @@ def main():
   for it, r in pmap(item, items, item_timeout=900):
     chk.absorb(it, r)
   chk.bounds = dict(histories=list(RD.HISTORIES), cycles=K, state='arbitrary initial state of every cell, symbolic input every cycle')
-  chk.outside = ['equality of the queryable metadata sets (names, nets, adjacency, read/write/call sets, explicit constraints) and reachability of removed objects: concrete facts per history, no inner quantifier '
-                 '-- seeds C15-m2 and C15-m3 change only such metadata and are not detectable here', 'method-port (CL) children', 'histories outside the corpus']
+  chk.outside = ['histories outside the corpus', 'method-port (CL) children other than the internal method net history']
   chk.assumptions = ['scheduler = DynamicSchedulePass']
-  chk.finish(rule="per history: the replaced design can be prepared for simulation; same set of simulated signal cells; one obligation per joint path: every same-named cell equal after every eval and tick for k cycles")
+  chk.finish(rule="per history: the replaced design can be prepared for simulation; same set of simulated signal cells; one obligation per joint path: every same-named cell equal after every eval and tick for k cycles; two structural obligations per history (direct comparison, no solver): canonical metadata (components, signals, named objects, value and method nets with writers, adjacency, update/ff/once blocks, read/write/call sets, U-U, RD-U, WR-U and method constraints) equal to the from-scratch design; no recorded object that its own name does not evaluate to")
 
 
 if __name__ == '__main__':
